@@ -17,7 +17,10 @@ CFG = {
             "server leaf replaced 15% - or 10%/40% in the server-cert-rotation kind -, restart 25%, stop 10%, documented reload else; "
             "ClientAuth 4/3 weighted, 0-2 too); every probe = clients with no certificate, self-signed and signed by each of the 3 CAs, "
             "at TLS 1.2 and at 1.3, plus the presented leaf; non-trivial = a start on already used paths with completed and refused "
-            "handshakes. PKI generated at run time",
+            "handshakes. PKI generated at run time; server leaves 1,2,7 share one private key and 3,4,8 another (renewals: same key, new "
+            "serial and validity), 5 and 6 have keys of their own, all with the same subject; half of the certificate replacements in "
+            "C30rot / C30paths are same-key renewals, the others new-key-same-subject, reloaded through GetExportOptions().TLS, clones "
+            "and the caller's original object, or not reloaded at all; leaves are identified by serial",
     "assumptions": [
         "go_min_default >= TLS 1.2: crypto/tls serves no version below 1.2 when Config.MinVersion is 0 (Go >= 1.22 without "
         "GODEBUG=tls10server=1); Section variable of Properties/C30.v, confronted with the toolchain by stream C30",
